@@ -50,6 +50,11 @@ CLAIMED = {
         technique='deterministic simulation (history engine): seal/unseal/accessor-flag operations and 0-3 nested scoped overrides (True/False/None) around every mutator, executed against an unsealed deep copy as reference executor to decide which containers the call would change',
         text='Seeded exploration of histories mixing per-object flags, nested as_sealed / allow_writable_accessors scopes and every mutator of the list/dict/object API at the protected node and below it. The same call runs on an unprotected deep copy: if it would change a container that is treated as sealed (scope over flag, None defers) the real call must raise WritePermissionError and the tree must be unchanged; accessor-disabled values must refuse []=/attribute/del while rebind works; nothing unprotected may be refused; seal/unseal must reach every descendant.',
         note='Trusted: the precedence rule (scope over flag, None defers) and the reference copy. Three listed known findings, all about states or scopes the library handles inconsistently (mixed seal states, construction under allow_writable_accessors(False)); their signatures are tagged so other violations are still reported.'),
+    'C09': dict(
+        engine='symtree', design='§2',
+        technique='deterministic simulation (history engine): seeded single and batched mutations on trees of recording objects and containers with callbacks, with raising-handler faults and notification scopes; the event log of every call is checked against the written locations and the pre/post snapshots, derived getters against a freshly built copy',
+        text='Seeded exploration of mutation histories (accessor writes, list/dict mutators, update/setdefault/pop, rebind with many paths, notify_parents / skip_notification, notify_on_change scopes) on trees whose objects override _on_change and whose containers carry callbacks. For every call that returns normally with notifications on: every subscribing ancestor of a changed location gets exactly one event, nobody else gets one, descendants before ancestors, keys are the written locations relative to the receiver, old/new values match the snapshots; with notifications off or skipped nothing is delivered. After ordinary mutations is_partial / sym_missing / sym_nondefault / sym_puresymbolic / is_deterministic of every node equal those of a deep clone built through the constructors.',
+        note='Trusted: written locations derived from the call\'s arguments; snapshots through the symbolic read API. A write of an equal value may or may not be listed. Batches whose elements shift positions (Insertion / deletion markers / overlapping paths) are judged only for exactly-once and order. A tree that saw a silent or rejected mutation is no longer judged for freshness in that run.'),
 }
 
 NOT_APPLICABLE = {}
